@@ -339,6 +339,7 @@ theorem flat_le (m : ExprMap) (h : ExprOK m) (ft : FTab) (n : Nat) (ih : ∀ k, 
   have hst' : isBlockStmt (mapStmt m st) = false := by
     cases st
     case try_ star _ _ _ _ => cases star <;> first | rfl | simp [isBlockStmt] at hst
+    case for_ isAsync _ _ _ _ => cases isAsync <;> first | rfl | simp [isBlockStmt] at hst
     all_goals first | rfl | simp [isBlockStmt] at hst
   rw [exec1_flat _ _ _ _ hst, exec1_flat _ _ _ _ hst']
   unfold flatExec
@@ -374,6 +375,73 @@ theorem excKind_map (f : Expr → Expr) (hn : ∀ e, nameOf (f e) = nameOf e)
         intro x hx
         cases x <;> first | rfl | simp [isTuple] at hx
       rw [key e he', key (f e) hfe, hn e]
+
+theorem forRange_eq (tg it : Expr) :
+    forRange tg it = (match nameOf tg, asNameCall it with
+      | some (x, _), some (f, _, [e]) => if f == "range" then some (x, e) else none
+      | _, _ => none) := by
+  cases tg <;> cases it <;> try rfl
+  rename_i x c f args kws
+  cases f <;> try rfl
+  cases kws with
+  | cons k ks =>
+    match args with
+    | [] => rfl
+    | [e] => rfl
+    | _ :: _ :: _ => rfl
+  | nil =>
+    match args with
+    | [] => rfl
+    | [e] => rfl
+    | _ :: _ :: _ => rfl
+
+theorem forRange_map (m : ExprMap) (h : ExprOK m) (tg it : Expr) :
+    forRange (m.e tg) (m.e it) = (forRange tg it).map (fun p => (p.1, m.e p.2)) := by
+  rw [forRange_eq, forRange_eq, nameOf_map m h tg, asNameCall_map m h it]
+  cases nameOf tg with
+  | none => rfl
+  | some p =>
+    obtain ⟨x, c⟩ := p
+    cases asNameCall it with
+    | none => rfl
+    | some q =>
+      obtain ⟨f, c2, args⟩ := q
+      match args with
+      | [] => rfl
+      | [e] => simp only [Option.map_some, List.map]; split <;> rfl
+      | _ :: _ :: _ => rfl
+
+/-- `for` loops refine when body and `else` refine at every fuel up to the current one -/
+theorem execFor_le (ft ft' : FTab) (body body' orelse orelse' : List Stmt) (N : Nat)
+    (hb : ∀ f, f ≤ N → ∀ s, Res.le (execL ft f s body) (execL ft' f s body'))
+    (ho : ∀ f, f ≤ N → ∀ s, Res.le (execL ft f s orelse) (execL ft' f s orelse')) :
+    ∀ f, f ≤ N → ∀ (s : St) (x : String) (i k : Int),
+      Res.le (execFor ft f s x i k body orelse) (execFor ft' f s x i k body' orelse') := by
+  intro f
+  induction f with
+  | zero =>
+    intro hf s x i k
+    rw [execFor.eq_1, execFor.eq_1]
+    by_cases hik : i < k
+    · simp only [hik, if_true]; exact Res.le_refl _
+    · simp only [hik, if_false]; exact ho 0 hf s
+  | succ f ihf =>
+    intro hf s x i k
+    rw [execFor.eq_2, execFor.eq_2]
+    by_cases hik : i < k
+    · simp only [hik, if_true]
+      rcases hb (f + 1) hf (s.assign x (.int i)) with hs | hs
+      · left; rw [hs]
+      · rw [hs]
+        cases execL ft (f + 1) (s.assign x (.int i)) body with
+        | ok fl =>
+          cases fl with
+          | normal s' => exact ihf (Nat.le_of_succ_le hf) s' x (i + 1) k
+          | continued s' => exact ihf (Nat.le_of_succ_le hf) s' x (i + 1) k
+          | broke s' => right; rfl
+          | returned v s' => right; rfl
+        | _ => right; rfl
+    · simp only [hik, if_false]; exact ho (f + 1) hf s
 
 theorem afterBody_le (r0 r0' : Res Flow) (e e' : St → Res Flow) (hd hd' : String → St → Res Flow)
     (h0 : Res.le r0 r0') (he : ∀ s, Res.le (e s) (e' s)) (hh : ∀ x s, Res.le (hd x s) (hd' x s)) :
@@ -464,12 +532,42 @@ theorem exec1_le (m : ExprMap) (h : ExprOK m) (ft : FTab) (n : Nat) (ih : ∀ k,
           · simp only [hv, Bool.false_eq_true, if_false]; exact execL_le m h ft (k + 1) ih orelse s
   | .functionDef .., s => flat_le m h ft n ih s _ rfl
   | .classDef .., s => flat_le m h ft n ih s _ rfl
-  | .for_ .., s => flat_le m h ft n ih s _ rfl
+  | .for_ true .., s => flat_le m h ft n ih s _ rfl
+  | .for_ false tg it body orelse, s => by
+    simp only [mapStmt]
+    rw [exec1.eq_4, exec1.eq_4, forRange_map m h tg it]
+    cases forRange tg it with
+    | none => left; rfl
+    | some p =>
+      obtain ⟨x, e⟩ := p
+      simp only [Option.map_some]
+      have hb : ∀ f, f ≤ n → ∀ s, Res.le (execL ft f s body) (execL (mapFT m ft) f s (mapBody m body)) := by
+        intro f hf s
+        rcases Nat.lt_or_eq_of_le hf with hlt | heq
+        · exact (ih f hlt).2 s body
+        · subst heq; exact execL_le m h ft f ih body s
+      have ho : ∀ f, f ≤ n → ∀ s, Res.le (execL ft f s orelse) (execL (mapFT m ft) f s (mapBody m orelse)) := by
+        intro f hf s
+        rcases Nat.lt_or_eq_of_le hf with hlt | heq
+        · exact (ih f hlt).2 s orelse
+        · subst heq; exact execL_le m h ft f ih orelse s
+      unfold evalThen
+      cases he : evalE s e with
+      | none => left; rfl
+      | some r =>
+        rw [h.evalOK s e (by simp [he]), he]
+        cases r with
+        | error err => right; rfl
+        | ok v =>
+          simp only []
+          cases v.asInt with
+          | none => left; rfl
+          | some k => exact execFor_le ft (mapFT m ft) body _ orelse _ n hb ho n (Nat.le_refl n) s x 0 k
   | .with_ .., s => flat_le m h ft n ih s _ rfl
   | .try_ true .., s => flat_le m h ft n ih s _ rfl
   | .try_ false body hs orelse fin, s => by
     simp only [mapStmt]
-    rw [exec1.eq_4, exec1.eq_4]
+    rw [exec1.eq_5, exec1.eq_5]
     apply withFinally_le
     · apply afterBody_le
       · exact execL_le m h ft n ih body s
